@@ -17,6 +17,9 @@ class PilotStub(object):
         self.uid, self.state = 'pilot.%04d' % pid, state
 
 
+PRIOR = 9999        # a detail that does not name a pilot (the task's own earlier error)
+
+
 def run_case(rp, tasks, calls):
     tm = stubs.make_tmgr(rp)
     objs = []
@@ -28,6 +31,10 @@ def run_case(rp, tasks, calls):
             o._descr.mode = rp.TASK_SERVICE
             if t['service'] == 'up':
                 o._set_info({'addr': 'tcp://x:1'})
+        if t.get('prior'):
+            # the task already carries error information of its own (a non-zero exit recorded by the
+            # executor on a task that is still being staged out)
+            o._exception, o._exception_detail = 'RuntimeError(task failed)', 'exit code: 1'
         objs.append(o)
     del tm.advanced[:]
     err = None
@@ -42,7 +49,7 @@ def run_case(rp, tasks, calls):
         det = o.exception_detail
         d = None
         if det:
-            d = int(det.split('pilot.')[1].split()[0])
+            d = int(det.split('pilot.')[1].split()[0]) if 'pilot.' in det else PRIOR
         out.append({'uid': t['uid'], 'state': o.state, 'pilot': t['pilot'], 'detail': d,
                     'exception': o.exception})
     pubs = [int(u.split('.')[1]) for adv in tm.advanced for u, _ in adv]
@@ -133,9 +140,11 @@ def monitor(rp, tasks, calls, out, err):
         if hit:
             if o['state'] != 'FAILED' or o['detail'] != t['pilot']:
                 return ('own-task-not-failed',
-                        'task %d of dead pilot %s: state %s detail %s' % (t['uid'], t['pilot'], o['state'], o['detail']))
+                        'task %d of dead pilot %s: state %s, explanation names %s' % (t['uid'], t['pilot'], o['state'],
+                         'no pilot (an older error)' if o['detail'] == PRIOR else o['detail']))
         else:
-            if o['state'] != t['state'] or o['detail'] is not None or o['exception'] is not None:
+            keep_d = PRIOR if t.get('prior') else None
+            if o['state'] != t['state'] or o['detail'] != keep_d or (o['exception'] is not None) != bool(t.get('prior')):
                 kind = 'unbound' if t['pilot'] is None else \
                        'final' if t['state'] in FINAL else 'other-pilot'
                 return ('bystander-changed:' + kind,
@@ -171,7 +180,8 @@ def run(ctx):
             st = rng.choice(tsts) if r < 0.8 else rng.choice(['DONE', 'FAILED', 'CANCELED'])
             tasks.append({'uid': i, 'state': st,
                           'pilot': None if rng.random() < 0.2 else rng.randrange(npil),
-                          'service': rng.choice([None, None, None, 'up', 'starting'])})
+                          'service': rng.choice([None, None, None, 'up', 'starting']),
+                          'prior': st not in ('DONE', 'FAILED', 'CANCELED') and rng.random() < 0.2})
         calls = []
         for _ in range(rng.randint(1, 3)):
             pids = rng.sample(range(npil), rng.randint(1, npil))
@@ -182,7 +192,8 @@ def run(ctx):
     dist = {'own': 0, 'bystander_other': 0, 'bystander_final': 0, 'unbound': 0}
     for tasks, calls in cases:
         out, pubs, err = run_case(rp, tasks, calls)
-        op = {'op': 'pilotcbs', 'tasks': [dict({k: v for k, v in t.items() if k != 'service'}, detail=None) for t in tasks],
+        op = {'op': 'pilotcbs', 'tasks': [dict({k: v for k, v in t.items() if k not in ('service', 'prior')},
+                                               detail=PRIOR if t.get('prior') else None) for t in tasks],
               'calls': [[list(x) for x in c] for c in calls]}
         ops.append(op)
         impl.append(['err', err] if err else
